@@ -1202,13 +1202,18 @@ func genCLI(tier string) []*tcase {
 		probe := build(v, starts[0])
 		for si := range probe.scripts() {
 			for k := 0; k < len(*probe.scripts()[si]); k++ {
-				for form := 0; form < 3; form++ {
+				// (thorough: every form with both spellings of the unparsable table and two starts)
+				reps := 1
+				if thorough {
+					reps = 4
+				}
+				for form := 0; form < 3*reps; form++ {
 					st := okStarts[n%len(okStarts)]
 					n++
 					c := build(v, st)
 					sc := c.scripts()[si]
 					old := (*sc)[k].s
-					switch form {
+					switch form % 3 {
 					case 0:
 						switch old.op {
 						case "ct":
